@@ -63,14 +63,17 @@ def variantNoAttr (c : Ctx) (mine : TraitId → Bool) (v : Variant) : Res Unit :
 def cmpFieldCfg (f : Field) (a : CmpFieldAttr) : List String :=
   [fname f, showBool a.ignore, showOpt a.method, match a.rank with | some r => toString r | none => "none"]
 
+/-- The primary impl and, when its partner trait is educed, the companion marker impl — under the
+    same predicates (they share `impl_generics`, `ty_generics` and `where_clause` in the code). -/
+def withCompanion (primary : Item) (companion : Option (TraitId × String)) (traits : TraitId → Bool) : List Item :=
+  match companion with
+  | some (t, name) => if traits t then [primary, { primary with trait := name }] else [primary]
+  | none => [primary]
+
 def eqLikeHandler (c : Ctx) (m : TraitMeta) (me : TraitId) (mine : TraitId → Bool) (traitPath : String)
     (companion : Option (TraitId × String)) : Res (List Item) := do
   let d := c.d
   let fieldFlags : CmpFieldFlags := { ignore := true, method := true, rank := false }
-  let companionItems (preds : List String) (head : List String) (vs : List (String × Shape × List String × List (List String))) : List Item :=
-    match companion with
-    | some (t, name) => if c.traits t then [{ trait := name, preds := preds, head := head, variants := vs }] else []
-    | none => []
   match d.kind with
   | .union =>
     let ta ← boundTypeFromMeta { flag := true, unsafe_ := true, bound := false } m
@@ -78,7 +81,7 @@ def eqLikeHandler (c : Ctx) (m : TraitMeta) (me : TraitId) (mine : TraitId → B
     else do
       let _ ← mapRes (fun f => fromAttrs c.F c.traits mine (cmpFieldFromMeta { ignore := false, method := false, rank := false }) {} f.attrs)
         ((d.variants.headD {}).fields)
-      pure ([{ trait := me.name, preds := [], head := ["union"] }] ++ companionItems [] ["union"] [])
+      pure (withCompanion { trait := me.name, preds := [], head := ["union"] } companion c.traits)
   | _ =>
     let ta ← boundTypeFromMeta { flag := true, unsafe_ := false, bound := true } m
     let vs ← mapRes (fun v => do
@@ -90,7 +93,7 @@ def eqLikeHandler (c : Ctx) (m : TraitMeta) (me : TraitId) (mine : TraitId → B
     let types := vs.flatMap fun (_, fas) => fas.filterMap fun (f, a) => if a.ignore || a.method.isSome then none else some f.ty
     let preds := boundPreds ta.bound d.generics traitPath types []
     let cfg := vs.map fun (v, fas) => (v.name, v.shape, ([] : List String), fas.map fun (f, a) => cmpFieldCfg f a)
-    pure ([{ trait := me.name, preds := preds, variants := cfg }] ++ companionItems preds [] cfg)
+    pure (withCompanion { trait := me.name, preds := preds, variants := cfg } companion c.traits)
 
 /-! ### Eq / Copy standing alone (marker impls) -/
 
@@ -126,8 +129,7 @@ def cloneHandler (c : Ctx) (m : TraitMeta) : Res (List Item) := do
   let preds := boundPreds ta.bound d.generics (if useCopy then "::core::marker::Copy" else "::core::clone::Clone") types []
   let cfg := vs.map fun (v, fas) => (v.name, v.shape, ([] : List String), fas.map fun (f, a) => [fname f, showOpt a.method])
   let head := [showBool useCopy]
-  pure ([{ trait := "Clone", preds := preds, head := head, variants := cfg }] ++
-        (if hasCopy then [{ trait := "Copy", preds := preds, head := head, variants := cfg }] else []))
+  pure (withCompanion { trait := "Clone", preds := preds, head := head, variants := cfg } (some (.copy, "Copy")) c.traits)
 
 /-! ### Ord / PartialOrd -/
 
